@@ -22,6 +22,7 @@ Record hquery := mkHQ {
   hq_loc : N; hq_qtype : N; hq_qclass : N;
   hq_lname : bytes;              (* lower-cased name *)
   hq_refused : bool; hq_weighted : bool;     (* shape of the answer (static zone layout) *)
+  hq_badvers : bool;             (* the request carries an EDNS version other than 0 *)
   hq_now : N;                    (* Unix time read just before the query *)
   hq_hit : bool; hq_expired : bool;          (* DNS_cache.hit / DNS_cache.expired counted by the cached handler *)
   hq_cached : oresp;             (* response of the handler with cache *)
@@ -52,14 +53,14 @@ Fixpoint flag_of (sel : hquery -> bool) (evs : list hevent) (k : key) : bool :=
 Definition m_serve (h : hcase) :=
   serve N N N (fun b => b) (fun _ r => q_from r) (fun _ _ _ rnd => rnd)
         (fun _ k => flag_of hq_weighted (h_events h) k) (fun _ k => flag_of hq_refused (h_events h) k)
-        (fun b _ _ => b) (mkCC true (h_cap h) (h_wrs h)).
+        (fun b _ _ => b) (fun r => q_extra r =? 1) (fun _ => 0) (mkCC true (h_cap h) (h_wrs h)).
 
 (* runs the history through the model; per event: None (no query) or (outcome, source event) *)
 Fixpoint m_run (h : hcase) (i : N) (g : N) (c : cache N) (evs : list hevent) : list (option (outcome * N)) :=
   match evs with
   | [] => []
   | HQuery q :: evs' =>
-      let r := mkReq (hq_loc q) (hq_lname q) (hq_qtype q) (hq_qclass q) 0 in
+      let r := mkReq (hq_loc q) (hq_lname q) (hq_qtype q) (hq_qclass q) (if hq_badvers q then 1 else 0) in
       let '(c', src, o) := m_serve h g c (hq_now q) i r in
       Some (o, src) :: m_run h (i + 1) g c' evs'
   | HReload ok _ :: evs' =>
